@@ -44,7 +44,7 @@ ASSUMPTIONS = [
     "rounding slack 1e3*n*eps*(|S||x|+|b|) per column; eps of the case dtype",
     "E keeps every shifted matrix well conditioned: Hermitian PD A gets e<=0 (or small e), others |e| <= 0.3 sigma_min(A)/|M|",
     "M is Hermitian positive definite with eigenvalues in [0.5, 2]",
-    "B has O(1) entries or exactly-zero columns (the tiny-B early exit |B|<=atol is not exercised)",
+    "B has O(1) entries, exactly-zero columns, or is scaled as a whole by 1e-9 / 1e6 together with atol=1e-16 (so that the early exit |B| <= atol must not trigger)",
     "silent-convergence class restricted to float64/complex128, cond<=10, default options (or only posdef=False); n<=8 except direct methods and plain CG/BiCGSTAB on Hermitian positive definite systems (n<=24); broyden1 only for O(1) right-hand sides",
 ]
 LEVEL_TEXT = ("Exploration over the product operator kind x method x E/M mode x batch pattern x dtype x spectrum with the method's own "
@@ -77,6 +77,8 @@ def build_problem(case, g=None):
         B = B * torch.tensor([10.0 ** k for k in bs[:ncols]], dtype=torch.float64).to(dt)
         if case["bB"] and case["bB"][0] > 1:
             B[0] = B[0] * 10.0 ** bs[-1]
+    if case.get("bglobal"):
+        B = B * float(case["bglobal"])
     E = M = None
     em = case["emode"]
     if em in ("E", "EM"):
@@ -169,10 +171,23 @@ def run_case(case):
             if "r" in pre:
                 opts["precond_r"] = P
     cls = in_silent_class(case, bool(Aop.is_hermitian))
+    mutate = case.get("mutate") if kind in R.LEAF_KINDS else None
     batchclass = "b%d%d%d%d" % (len(case["bA"]), len(case["bB"]), len(case["bE"]) if E is not None else 0, len(case["bM"]) if M is not None else 0)
     labels = ["method=" + method, "emode=" + case["emode"], "kind=" + kind, "dtype=" + case["dtype"], "spec=" + case["spec"],
-              "batch=" + batchclass, "zero=" + case["zero"], "bscale=%s" % bool(case.get("bscale")), "easycol=%s" % bool(case.get("easycol")), "class=%s" % cls, "precond=%s" % pre, "opts=%s" % bool(case["opts"])]
+              "batch=" + batchclass, "zero=" + case["zero"], "bscale=%s" % bool(case.get("bscale")), "easycol=%s" % bool(case.get("easycol")), "class=%s" % cls, "precond=%s" % pre, "opts=%s" % bool(case["opts"]), "mutate=%s" % mutate, "bglobal=%s" % case.get("bglobal")]
 
+    if mutate:
+        # history on the same operator objects: solve, change the operators' matrices in place (as an optimiser step or a
+        # buffer update does), solve again - the second answer must belong to the *current* matrices
+        with warnings.catch_warnings():
+            warnings.simplefilter("ignore")
+            with torch.no_grad():
+                xt_call(solve, Aop, B, E, Mop, method=method, _where="forward", **opts)
+                if "A" in mutate:
+                    A.mul_(1.25)
+                if "M" in mutate and M is not None:
+                    M.mul_(0.8)
+        torch.manual_seed(case["seed"] & 0xFFFF)
     with warnings.catch_warnings(record=True) as wlist:
         warnings.simplefilter("always")
         with torch.no_grad():
@@ -326,6 +341,11 @@ def case_st(draw, tier="quick", methods=METHODS):
                 opts["line_search"] = False
     if dtype == "f32" and method == "broyden1" and "f_tol" not in opts:
         opts["f_tol"] = 1e-3
+    bglobal = None
+    if method in KRYLOV and dtype != "f32" and draw(st.integers(0, 5)) == 0:
+        # a tiny (or huge) right-hand side together with a caller-chosen absolute tolerance far below it
+        bglobal = draw(st.sampled_from([1e-9, 1e-9, 1e6]))
+        opts["atol"] = 1e-16
     easy = draw(st.integers(0, 5)) == 0
     bA, bB, bE, bM = (R.sub_batch(draw, batch) for _ in range(4))
     if easy:
@@ -347,7 +367,8 @@ def case_st(draw, tier="quick", methods=METHODS):
         "method": method, "emode": emode, "ecomplex": draw(st.booleans()), "eneg": draw(st.sampled_from([True, True, False])),
         "opts": opts, "zero": draw(st.sampled_from(["none", "none", "none", "none", "some", "all"])),
         "bscale": draw(st.one_of(st.none(), st.none(), st.lists(st.integers(-4, 4), min_size=4, max_size=4))),
-        "easycol": easy,
+        "easycol": easy, "mutate": draw(st.sampled_from([None, None, None, "A", "M", "AM"])),
+        "bglobal": bglobal,
         "seed": draw(st.integers(0, 2 ** 31 - 1)),
     }
 
